@@ -101,10 +101,17 @@ func (c *EncryptedServerCookie) Encode() []byte {
 // Decode decodes an EncryptedServerCookie from a byte slice or returns an error if it fails to decode it.
 func (c *EncryptedServerCookie) Decode(b []byte) error {
 	pos := 0
+	end := len(b)
 	id, nonce, ciphertext := false, false, false
 	for pos < len(b) {
+		if end-pos < 4 {
+			return errUnexpectedCookieData
+		}
 		t := binary.BigEndian.Uint16(b[pos:])
 		len := binary.BigEndian.Uint16(b[pos+2:])
+		if int(len) > end-pos-4 || t == cookieTypeKeyID && len < 2 {
+			return errUnexpectedCookieData
+		}
 		if t == cookieTypeKeyID {
 			c.ID = binary.BigEndian.Uint16(b[pos+4:])
 			id = true
